@@ -70,6 +70,7 @@ def run(chk, rules=None, as_prop=None):
     chk.rule("G6r", "check_subquery: every return of a rebuilt chain passes through a requires_subquery re-test (must-pass-through)")
     chk.rule("G9", "typestate model check: Cache.update / Cache.requires_subquery interpreted on every verb sequence up to the bound agree with the reference automaton of one SQL SELECT (hazards refused, the never-needs-a-subquery class accepted, a subquery makes the verb fit, Polars never asks)")
     chk.rule("G8v", "function type of composite expressions (CaseExpr.ftype, ColFn.ftype) interpreted for every combination of child kinds: window > aggregate > element-wise, constants do not count, conditions count, nesting table of ColFn.ftype")
+    chk.rule("G6v", "check_subquery interpreted on stub tables: fits -> unchanged; subquery needed + alias -> rebuilt copies around SubqueryMarker(alias), re-tested; any reason left or no alias -> SubqueryError; the input tree is never modified")
     chk.rule("G7", "SqlImpl.compile_ast materialises SubqueryMarker as a subquery and restarts the query state")
 
     cache = repo.mod("pipe.cache")
@@ -191,6 +192,21 @@ def run(chk, rules=None, as_prop=None):
 
     # ---- G4 builders
     _builders(chk, sym)
+
+    # ---- G6v check_subquery by interpretation
+    from ..interp import PyRaise, SymbolicBranch
+    from ..tablesim import check_subquery_scenarios
+
+    pmod = repo.mod("pipe.pipeable")
+    try:
+        res_c = check_subquery_scenarios(repo)
+        for desc, ok_, detail in res_c:
+            chk.ob("G6v", pmod, pmod.func("check_subquery"), f"check_subquery: {desc}", ok_, detail)
+        chk.floor("G6v", "check_subquery scenarios", len(res_c), 5)
+    except (AnalysisError, SymbolicBranch) as e:
+        chk.undecided.append(f"G6v: check_subquery could not be interpreted ({str(e)[:140]})")
+    except PyRaise as p_:
+        chk.ob("G6v", pmod, pmod.func("check_subquery"), "check_subquery on stub tables", False, f"setting up the stub pipeline raises {p_.name}: {p_.msg}")
 
     # ---- G6 check_subquery
     _check_subquery(chk, sym)
